@@ -10,7 +10,7 @@ uint8_t* Exec::call_alloc(const std::string& f0, int h, size_t n, size_t c, size
   mi_heap_t* hp = nullptr; valid = true; zeroing = false; req = n; eff_a = 1; eff_o = 0;
   if (h > 0) { hp = heap_of(h); if (!hp) { valid = false; return nullptr; } }
   // the throwing operator-new forms abort() by design in the C build when memory is refused and no new-handler is installed
-  if (allow_null && (f0 == "new" || f0 == "new_n" || f0 == "new_aligned")) { count(C_EXCLUDED); valid = false; return nullptr; }
+  if ((allow_null || m.heaps[h > 0 ? h : m.def].arena >= 0) && (f0 == "new" || f0 == "new_n" || f0 == "new_aligned")) { count(C_EXCLUDED); valid = false; return nullptr; }   // (an arena-bound heap may legitimately be full)
   const std::string& f = f0;
   void* p = nullptr;
   auto tot = [&](size_t cc, size_t nn) { return cc * nn; };   // generator keeps products small in non-edge ops
@@ -26,7 +26,7 @@ uint8_t* Exec::call_alloc(const std::string& f0, int h, size_t n, size_t c, size
   else if (f == "zalloc_aligned_at")  { zeroing = true; eff_a = a; eff_o = o; p = hp ? mi_heap_zalloc_aligned_at(hp, n, a, o) : mi_zalloc_aligned_at(n, a, o); }
   else if (f == "calloc_aligned")     { zeroing = true; eff_a = a; req = tot(c, n); p = hp ? mi_heap_calloc_aligned(hp, c, n, a) : mi_calloc_aligned(c, n, a); }
   else if (f == "calloc_aligned_at")  { zeroing = true; eff_a = a; eff_o = o; req = tot(c, n); p = hp ? mi_heap_calloc_aligned_at(hp, c, n, a, o) : mi_calloc_aligned_at(c, n, a, o); }
-  else if (f == "posix_memalign") { if (hp || a < sizeof(void*)) { valid = false; return nullptr; } eff_a = a; void* q = (void*)0x5a5a; int rc = mi_posix_memalign(&q, a, n); if (rc != 0) { if (!allow_null) fail_now("posix_memalign-rc", "op#%ld mi_posix_memalign(a=%zu,n=%zu) returned %d", opi, a, n, rc); q = nullptr; } p = q; }
+  else if (f == "posix_memalign") { if (hp || a < sizeof(void*)) { valid = false; return nullptr; } eff_a = a; void* q = (void*)0x5a5a; int rc = mi_posix_memalign(&q, a, n); if (rc != 0) { if (!allow_null && !(rc == ENOMEM && m.heaps[m.def].arena >= 0)) fail_now("posix_memalign-rc", "op#%ld mi_posix_memalign(a=%zu,n=%zu) returned %d", opi, a, n, rc); q = nullptr; } p = q; }
   else if (f == "memalign")      { if (hp) { valid = false; return nullptr; } eff_a = a; p = mi_memalign(a, n); }
   else if (f == "aligned_alloc") { if (hp) { valid = false; return nullptr; } eff_a = a; p = mi_aligned_alloc(a, n); }
   else if (f == "valloc")        { if (hp) { valid = false; return nullptr; } eff_a = 4096; p = mi_valloc(n); }
@@ -64,6 +64,7 @@ void Exec::op_alloc(const Op& op) {
   count(C_ALLOCS);
   if (p == nullptr) {
     count(C_NULLS);
+    if (m.heaps[h > 0 ? h : m.def].arena >= 0) flag(F_ARENA_FULL_NULL);
     if (ea > BLOCK_ALIGNMENT_MAX && eo != 0) return;          // documented: no offset with very large alignment
     if (!allow_null && req <= MUST_SUCCEED_MAX && ea <= 128*MiB && m.heaps[h > 0 ? h : m.def].arena < 0) fail_now("null", "op#%ld %s(n=%zu,a=%zu,o=%zu) returned NULL for a well-formed request", opi, f.c_str(), req, ea, eo);
     return;
@@ -135,8 +136,8 @@ void Exec::op_realloc(const Op& op) {
   else if (f == "recalloc")  { zeroing = true; req = c * n; q = hp ? mi_heap_recalloc(hp, p, c, n) : mi_recalloc(p, c, n); }
   else if (f == "reallocarray") { if (hp) return; req = c * n; q = mi_reallocarray(p, c, n); }
   else if (f == "reallocarr")   { if (hp) return; req = c * n; void* pp = p; int rc = mi_reallocarr(&pp, c, n); q = (rc == 0 ? pp : nullptr); if (rc != 0 && pp != p) fail_now("reallocarr-store", "op#%ld mi_reallocarr failed (%d) but stored %p", opi, rc, pp); }
-  else if (f == "new_realloc")  { if (hp || n > MiB || allow_null) return; q = mi_new_realloc(p, n); }
-  else if (f == "new_reallocn") { if (hp || c * n > MiB || allow_null) return; req = c * n; q = mi_new_reallocn(p, c, n); }
+  else if (f == "new_realloc")  { if (hp || n > MiB || allow_null || m.heaps[m.def].arena >= 0) return; q = mi_new_realloc(p, n); }
+  else if (f == "new_reallocn") { if (hp || c * n > MiB || allow_null || m.heaps[m.def].arena >= 0) return; req = c * n; q = mi_new_reallocn(p, c, n); }
   else if (f == "realloc_aligned")     { aligned_fn = true; ea = a; q = hp ? mi_heap_realloc_aligned(hp, p, n, a) : mi_realloc_aligned(p, n, a); }
   else if (f == "realloc_aligned_at")  { aligned_fn = true; ea = a; eo = o; q = hp ? mi_heap_realloc_aligned_at(hp, p, n, a, o) : mi_realloc_aligned_at(p, n, a, o); }
   else if (f == "rezalloc_aligned")    { aligned_fn = true; zeroing = true; ea = a; q = hp ? mi_heap_rezalloc_aligned(hp, p, n, a) : mi_rezalloc_aligned(p, n, a); }
@@ -166,7 +167,7 @@ void Exec::op_realloc(const Op& op) {
     flag(F_REALLOC_MOVED); if (ozmode && zeroing) flag(F_ZCHAIN_MOVED);
     // old block is released: take it out of the model first, then the new block must be disjoint from all live ones
     m.live.erase((uintptr_t)p); m.nlive--; b.live = false; m.freed_addrs.insert((uintptr_t)p); m.dirty[(uintptr_t)p & ~(uintptr_t)0xFFFF] = 1;
-    check_disjoint(qq, u2, s, f.c_str());
+    check_disjoint(qq, u2, s, f.c_str()); check_arena_rules(qq, u2, (h > 0 ? h : m.def), f.c_str());
     if (m.freed_addrs.count((uintptr_t)qq)) flag(F_REUSE);
     m.live[(uintptr_t)qq] = s; m.nlive++; b.live = true; b.p = qq; b.u = u2;
     b.home = (h > 0 ? h : m.def); b.tag = m.heaps[b.home].tag;
